@@ -1,6 +1,7 @@
 package engine
 
 import (
+	"time"
 	"bytes"
 	"fmt"
 	"os"
@@ -143,6 +144,26 @@ func determinismMem(r *Run) {
 			mayFail = true
 			r.Probe("inputs-beyond-the-slice-limit")
 		}
+	}
+	if !par1Set && t.Bool(1, 40, "many-input-files") {
+		// 65-200 tiny input files, the first one slow to read (a straggler
+		// among fast reads matters to code that reads ahead or in parallel)
+		extra := 65 + t.Draw(136, "n-extra")
+		msize := 24
+		if w.S < 24 {
+			msize = 2 * w.S
+		}
+		for i := 0; i < extra; i++ {
+			f := ref.Protected{Name: fmt.Sprintf("m%03d.dat", i), Data: expandContent(ckRandom, t.Draw64(0, "m-seed"), 1+t.Draw(msize, "m-size"), 4)}
+			w.Files = append(w.Files, f)
+			base.Put(w.Path(len(w.Files)-1), f.Data)
+		}
+		if w.R > 4 {
+			w.R = 1 + t.Draw(4, "m-R")
+		}
+		base.Slow = map[string]time.Duration{base.Resolve(w.Path(0)): 3 * time.Millisecond}
+		paths = w.FilePaths()
+		r.Probe("many-input-files-one-slow")
 	}
 	if !par1Set && t.Bool(1, 60, "sparse-slices") {
 		// slice sizes of 8-16 KiB that are not a multiple of 16, sparse
